@@ -57,7 +57,13 @@ TRUSTED = ['modelled by hand: control flow of put_job, deque.__contains__ (CPyth
            'process_task/process (Model/Dispatcher.v); data generated from /repo',
            'harness/lib/sched.py: sys.settrace based scheduler; only one controlled thread runs at any time']
 
-OUTCOMES = ['ret', 'silent', 'template', 'internal', 'jobfailure', 'other']
+OUTCOMES = ['ret', 'silent', 'template', 'internal', 'jobfailure', 'other', 'other_empty', 'other_multi']
+# harness-level variants of the model's single "arbitrary exception" outcome: the real code must treat an
+# exception whose str() is empty (ConnectionError(), a bare assert, KeyError(), TimeoutError()) or spans several
+# lines exactly like any other one
+MODEL_OUTCOME = {'ret': 0, 'silent': 1, 'template': 2, 'internal': 3, 'jobfailure': 4, 'other': 5,
+                 'other_empty': 5, 'other_multi': 5}
+EMPTY_MESSAGE_CLASSES = (ConnectionError, AssertionError, KeyError, TimeoutError)
 NOOP = 99
 
 
@@ -482,17 +488,19 @@ def _env():
     class B(BertE):
         pass
 
-    def make_exc(kind):
+    def make_exc(kind, vid):
         return {'silent': lambda: ex.SilentException('quiet'),
                 'template': TemplateStub,
                 'internal': lambda: ex.InternalException('internal'),
                 'jobfailure': lambda: ex.JobFailure('job failed'),
-                'other': lambda: KeyError('boom')}[kind]()
+                'other': lambda: KeyError('boom'),
+                'other_empty': EMPTY_MESSAGE_CLASSES[(vid * 7 + vid // 10) % len(EMPTY_MESSAGE_CLASSES)],
+                'other_multi': lambda: ValueError('first line\nsecond line\n\nlast line')}[kind]()
 
     def handler(job):
         job._handled = True
         if job._outcome != 'ret':
-            job._raised = make_exc(job._outcome)
+            job._raised = make_exc(job._outcome, job._vid)
             raise job._raised
         return 0
 
@@ -517,7 +525,9 @@ def _canon_job(j):
         st = 't'
     else:
         st = 'x'
-    if j.details == '':
+    if j.details == '' and st == 't' and raised is not None and str(raised) == '':
+        dt = 's'          # str(err) of an exception without message: indistinguishable from the initial ''
+    elif j.details == '':
         dt = 'u'
     elif j.details is None:
         dt = 'n'
@@ -732,7 +742,7 @@ def job_words(cfg):
     for i, jobs in enumerate(cfg['threads']):
         out.append('T')
         for k, (kind, key, outcome) in enumerate(jobs):
-            out.append('%s.0.%d.%d.%d' % (kind, key, (i + 1) * 10 + k, OUTCOMES.index(outcome)))
+            out.append('%s.0.%d.%d.%d' % (kind, key, (i + 1) * 10 + k, MODEL_OUTCOME[outcome]))
     return ' '.join(out)
 
 
@@ -810,6 +820,10 @@ def plan(ctx):
         # every outcome kind on the smallest shape, line-level, all schedules with <= 2 preemptions
         for o in OUTCOMES:
             units.append(('dfs', {'threads': [[('P', 1, o)]]}, 2, False, None))
+            # ... and a further request accepted after (or while) such a job: a dead worker shows up as an
+            # accepted event that is never started
+            units.append(('dfs', {'threads': [[('P', 1, o), ('P', 2, 'ret')]]}, 1, False, None))
+            units.append(('dfs', {'threads': [[('C', 1, o)], [('C', 1, 'other')]]}, 1, True, None))
         # seeded subset: random schedules (any number of preemptions) over every shape / assignment family
         n = 0
         for shape in SHAPES_ALL:
@@ -830,6 +844,9 @@ def plan(ctx):
     for o in OUTCOMES:
         for j in (P1, A0, C1):
             units.append(('dfs', {'threads': [[(j[0], j[1], o)]]}, 3, False, None))
+        # a further request accepted after / while a job of each outcome kind is evaluated
+        units.append(('dfs', {'threads': [[('P', 1, o), ('P', 2, 'ret')]]}, 2, False, None))
+        units.append(('dfs', {'threads': [[('A', 0, o)], [('P', 1, 'silent')]]}, 2, False, None))
     for alphabet in (main, alt):
         for cfg in configs([2], alphabet):
             units.append(('dfs', cfg, 3, False, None))
@@ -891,6 +908,18 @@ def _run_unit(unit):
         answers = model.batch([chk_line(cfg, r) for r in pending])
         for r, ans in zip(pending, answers):
             corr, _, bits = ans.partition(' ')
+            if ans.startswith('ERR sd'):
+                # a status / details value the model's alphabet does not have (already a mismatch): the monitors
+                # are still evaluated - details are not part of the specification, an unexpected status is a
+                # failure of the worker clause by itself
+                import re
+                hist2 = [re.sub(r':([utx])x', r':\1n', e) for e in r['history']]
+                if any(re.search(r':x[a-z]', e) for e in hist2):
+                    bits = '1101'
+                else:
+                    bits = model.batch(['mon %s H %s' % (job_words(cfg), ' '.join(hist2))])[0]
+                    if bits.startswith('ERR'):
+                        bits = '1111'
             inp = {'threads': cfg['threads'], 'schedule': r['taken']}
             if ans.startswith('ERR') or corr != 'ok':
                 k = None
@@ -901,13 +930,15 @@ def _run_unit(unit):
                                             'impl': r['history'][k] if k is not None and k < len(r['history'])
                                             else '(%d entries)' % len(r['history']), 'step': k})
                 out['hist']['mismatch'] += 1
-            if not ans.startswith('ERR') and bits != '1111':
+            if bits != '1111' and len(bits) == 4:
                 names = ['no_loss', 'dedup', 'worker', 'served']
                 failed = [n for n, b in zip(names, bits) if b != '1']
                 if len(out['violation']) < 3:
                     out['violation'].append({'input': inp, 'failed': failed,
                                              'marks': [e.split('/', 1)[0] for e in r['history'] if not e.startswith('-/')],
-                                             'final': r['history'][-1] if r['history'] else ''})
+                                             'final': r['history'][-1] if r['history'] else '',
+                                             'accepted_but_never_started_worker_dead':
+                                                 list(r['final'][0]) if r['final'][3] == 'd' else []})
                 out['hist']['violation:' + '+'.join(failed)] += 1
         del pending[:]
 
@@ -1080,7 +1111,8 @@ def _report(ctx, res):
         ctx.mismatch(e['input'], e['errors'], None, 'harness')
     for v in res['violation']:
         ctx.violation(v['input'], 'no_loss, dedup, worker, served all hold on the real history',
-                      {'failed': v['failed'], 'marks': v['marks'], 'final': v['final']},
+                      {'failed': v['failed'], 'marks': v['marks'], 'final': v['final'],
+                       'accepted_but_never_started_worker_dead': v['accepted_but_never_started_worker_dead']},
                       'the real dispatcher violates %s under this schedule' % ' and '.join(v['failed']))
     if res.get('sample'):
         ctx.sample(res['sample'])
@@ -1117,7 +1149,8 @@ def run(ctx, units=None):
     ctx.exhaustive = (not ctx.quick) and incomplete == 0
     ctx.rule = (
         'a case = one complete schedule (list of thread ids, one per stop) of a configuration (<= 3 request threads x '
-        '<= 2 events, jobs over {PR#1, PR#2 | commit, API job}, every outcome kind dealt cyclically), run on the real '
+        '<= 2 events, jobs over {PR#1, PR#2 | commit, API job}, every outcome kind - including arbitrary exceptions with an '
+        'empty and with a multi-line message - dealt cyclically, each kind also followed by a further request), run on the real '
         'put_job / process_task in real threads under the controlled scheduler and on the extracted model; snapshot '
         'compared after EVERY step; extracted monitors evaluated on the real history.  %s.  '
         'distinct_nontrivial = schedules (distinct by construction inside an enumeration, possibly repeated between '
